@@ -236,6 +236,8 @@ def main(argv=None):
         json.dump(ev, f, indent=1, default=str)
     if err:
         print("evidence does not validate: " + err)
+    for b in obligations_broken:
+        print("BROKEN: %s %s" % (b.get("what"), (b.get("error") or b.get("log") or "")[:300].replace("\n", " | ")))
     for l in lines:
         print(l)
     print("%s %s: %d cases, %d non-trivial, %d theorems checked, %d disagreements, %.1fs -> %s" % (
